@@ -26,6 +26,7 @@
 EXTENDS BlasAddr, TLC
 
 BadFlag == 9
+NoHi == 99999           \* "no upper bound" in a dimension range
 
 (******************************** the routines ********************************)
 LU    == {"Dgetrf", "Dgetf2", "Dgetrs", "Dgesv", "Dgetri"}
@@ -51,7 +52,12 @@ TriD  == {"Dgtsv", "Dptsv", "Dpttrs"}                                           
 TriN  == {"Dlangt", "Dlanst", "Dpttrf", "Dptcon", "Dsterf"}                                         \* n, the diagonals as vectors
 VecN  == {"Drscl", "Dlassq", "Dlasrt", "Dlarfg"}                                                    \* n, one vector
 Aux   == TriN \cup VecN \cup {"Dlangb", "Dlaswp"}
-Drv   == SqN \cup Hess \cup GeMN \cup BandS \cup TriD \cup Aux \cup {"Dgels", "Dorgbr", "Dormbr", "Dormhr"}
+\* routines tabulated for the workspace-query obligation (LapackQuery.tla) only: five matrix operands, a boolean
+\* vector or five dimensions exceed the argument slots of the sampled grid of LapackContractGen.tla
+Gsv   == {"Dggsvp3", "Dggsvd3"}                                                            \* m x n A, p x n B; U, V, Q by the jobs
+Schur == {"Dhseqr", "Dlaqr04"}                                                             \* n x n Hessenberg H, block ilo .. ihi
+QOnly == Gsv \cup Schur \cup {"Dtrevc3", "Dlaqr23"}
+Drv   == SqN \cup Hess \cup GeMN \cup BandS \cup TriD \cup Aux \cup {"Dgels", "Dorgbr", "Dormbr", "Dormhr"} \cup QOnly
 LapackRoutines == LU \cup Chol \cup QRf \cup OrgQ \cup OrmQ \cup Tri \cup Refl \cup Drv
 
 \* flag kinds and their legal codes.  side: 0 Left 1 Right; trans: 0 NoTrans 1 Trans 2 ConjTrans
@@ -85,8 +91,13 @@ FlagKinds(r) ==
       [] r = "Dormbr" -> <<"applyortho", "side", "trans2">>  \* 0 ApplyQ 1 ApplyP
       [] r = "Dormhr" -> <<"side", "trans2">>
       [] r = "Dtbtrs" -> <<"uplo", "trans3", "diag">>
+      [] r \in Gsv -> <<"gsvdu", "gsvdv", "gsvdq">>          \* 0 compute (GSVDU / GSVDV / GSVDQ) 1 GSVDNone
+      [] r = "Dhseqr" -> <<"schurjob", "schurcomp">>         \* 0 EigenvaluesOnly 1 EigenvaluesAndSchur; 0 SchurNone 1 SchurHess 2 SchurOrig
+      [] r = "Dlaqr04" -> <<"bool", "bool">>                 \* wantt, wantz
+      [] r = "Dlaqr23" -> <<"bool", "bool", "bool">>         \* wantt, wantz, recur > 0 (behaves as DLAQR3) or recur = 0 (DLAQR2)
+      [] r = "Dtrevc3" -> <<"evside", "evhowmany">>          \* 0 EVRight 1 EVLeft 2 EVBoth; 0 EVAll 1 EVAllMulQ 2 EVSelected
       [] OTHER -> <<>>
-LegalCodes(kind) == CASE kind \in {"trans3", "svdjobu", "svdjobvt", "uplo3", "uploany", "mtype3"} -> {0, 1, 2}
+LegalCodes(kind) == CASE kind \in {"trans3", "svdjobu", "svdjobvt", "uplo3", "uploany", "mtype3", "schurcomp", "evside", "evhowmany"} -> {0, 1, 2}
                       [] kind = "norm4" -> {0, 1, 2, 3}
                       [] OTHER -> {0, 1}
 AllCodes(kind)   == CASE kind = "trans2" -> {0, 1, 2, BadFlag}
@@ -113,6 +124,13 @@ DimNames(r) ==
       [] r \in TriN \cup VecN -> <<"n">>
       [] r = "Dlangb" -> <<"m", "n", "kl", "ku">>
       [] r = "Dlaswp" -> <<"n", "k1", "k2">>
+      [] r = "Dggsvp3" -> <<"m", "p", "n">>
+      [] r = "Dggsvd3" -> <<"m", "n", "p">>
+      [] r = "Dhseqr" -> <<"n", "ilo", "ihi">>
+      [] r = "Dlaqr04" -> <<"n", "ilo", "ihi", "iloz", "ihiz">>
+      [] r = "Dtrevc3" -> <<"n", "mm">>                      \* mm: columns of VL / VR
+      \* aggressive early deflation: block ktop .. kbot of the n x n H, window nw, T is nw x nh, WV is nv x nw
+      [] r = "Dlaqr23" -> <<"n", "ktop", "kbot", "nw", "iloz", "ihiz", "nh", "nv">>
 
 \* flag lookups by kind (0 when the routine has no such flag)
 FlagOf(r, p, kind) ==
@@ -126,15 +144,15 @@ Mn(r, p) == Min(Dim(r, p, "m"), Dim(r, p, "n"))
 Nq(r, p) == IF IsLeft(r, p) THEN Dim(r, p, "m") ELSE Dim(r, p, "n")    \* order of Q
 Nw(r, p) == IF IsLeft(r, p) THEN Dim(r, p, "n") ELSE Dim(r, p, "m")    \* workspace rows
 
-\* documented range of dimension i given the flags and the other dimensions: <<lo, hi>> (hi = 99: none)
+\* documented range of dimension i given the flags and the other dimensions: <<lo, hi>> (hi = NoHi: none)
 DimRange(r, p, i) ==
     LET nm == DimNames(r)[i] IN
     CASE r \in OrgCol /\ nm = "n" -> <<0, Dim(r, p, "m")>>        \* n <= m
       [] r \in OrgCol /\ nm = "k" -> <<0, Dim(r, p, "n")>>        \* k <= n
-      [] r \in OrgRow /\ nm = "n" -> <<Max(0, Dim(r, p, "m")), 99>>   \* n >= m
+      [] r \in OrgRow /\ nm = "n" -> <<Max(0, Dim(r, p, "m")), NoHi>>   \* n >= m
       [] r \in OrgRow /\ nm = "k" -> <<0, Dim(r, p, "m")>>        \* k <= m
       [] r \in OrmQ /\ nm = "k" -> <<0, Nq(r, p)>>                               \* k <= order of Q
-      [] r = "Dlarft" /\ nm = "k" -> <<1, IF Dim(r, p, "n") <= 0 THEN 99 ELSE Dim(r, p, "n")>>   \* 1 <= k (<= n)
+      [] r = "Dlarft" /\ nm = "k" -> <<1, IF Dim(r, p, "n") <= 0 THEN NoHi ELSE Dim(r, p, "n")>>   \* 1 <= k (<= n)
       [] r = "Dlarfb" /\ nm = "k" -> <<0, Nq(r, p)>>                             \* k <= order of H
       \* Hessenberg reduction: 0 <= ilo <= max(0, n-1), min(ilo, n-1) <= ihi <= n-1 (n = 0: ilo = 0, ihi = -1)
       [] r \in {"Dgehrd", "Dgehd2"} /\ nm = "ilo" -> <<0, Max(0, Dim(r, p, "n") - 1)>>
@@ -143,12 +161,26 @@ DimRange(r, p, i) ==
       [] r = "Dormhr" /\ nm = "ilo" -> <<0, Max(1, Nq(r, p)) - 1>>
       [] r = "Dormhr" /\ nm = "ihi" -> <<Min(Dim(r, p, "ilo"), Nq(r, p) - 1), Nq(r, p) - 1>>
       \* Dorgbr: Q is m x n with n <= m and n >= min(m,k); P^T is m x n with m <= n and m >= min(n,k)
-      [] r = "Dorgbr" /\ nm = "n" -> IF p.f[1] = 0 THEN <<0, Dim(r, p, "m")>> ELSE <<Max(0, Dim(r, p, "m")), 99>>
-      [] r = "Dorgbr" /\ nm = "k" -> IF Dim(r, p, "m") = Dim(r, p, "n") THEN <<0, 99>>
+      [] r = "Dorgbr" /\ nm = "n" -> IF p.f[1] = 0 THEN <<0, Dim(r, p, "m")>> ELSE <<Max(0, Dim(r, p, "m")), NoHi>>
+      [] r = "Dorgbr" /\ nm = "k" -> IF Dim(r, p, "m") = Dim(r, p, "n") THEN <<0, NoHi>>
                                      ELSE <<0, Min(Dim(r, p, "m"), Dim(r, p, "n"))>>
       \* Dlaswp: rows k1 .. k2 of a matrix with at least k2+1 rows, 0 <= k1 <= k2
-      [] r = "Dlaswp" /\ nm = "k2" -> <<Max(0, Dim(r, p, "k1")), 99>>
-      [] OTHER -> <<0, 99>>
+      [] r = "Dlaswp" /\ nm = "k2" -> <<Max(0, Dim(r, p, "k1")), NoHi>>
+      \* Schur routines: 0 <= ilo <= ihi < n (n = 0: ilo = 0, ihi = -1); Dlaqr04 with wantz: 0 <= iloz <= ilo, ihi <= ihiz < n
+      [] r \in Schur /\ nm = "ilo" -> <<0, Max(0, Dim(r, p, "n") - 1)>>
+      [] r \in Schur /\ nm = "ihi" -> <<Min(Dim(r, p, "ilo"), Dim(r, p, "n") - 1), Dim(r, p, "n") - 1>>
+      [] r = "Dlaqr04" /\ nm = "iloz" -> IF p.f[2] = 1 THEN <<0, Dim(r, p, "ilo")>> ELSE <<0 - NoHi, NoHi>>
+      [] r = "Dlaqr04" /\ nm = "ihiz" -> IF p.f[2] = 1 THEN <<Dim(r, p, "ihi"), Dim(r, p, "n") - 1>> ELSE <<0 - NoHi, NoHi>>
+      \* Dlaqr23: 0 <= ktop <= kbot < n, 0 <= nw <= kbot-ktop+1, with wantz 0 <= iloz <= ktop and kbot <= ihiz < n, nh >= nw
+      [] r = "Dlaqr23" /\ nm = "ktop" -> <<0, Max(0, Dim(r, p, "n") - 1)>>
+      [] r = "Dlaqr23" /\ nm = "kbot" -> <<Min(Dim(r, p, "ktop"), Dim(r, p, "n") - 1), Dim(r, p, "n") - 1>>
+      [] r = "Dlaqr23" /\ nm = "nw" -> <<0, Dim(r, p, "kbot") - Dim(r, p, "ktop") + 1>>
+      [] r = "Dlaqr23" /\ nm = "iloz" -> IF p.f[2] = 1 THEN <<0, Dim(r, p, "ktop")>> ELSE <<0 - NoHi, NoHi>>
+      [] r = "Dlaqr23" /\ nm = "ihiz" -> IF p.f[2] = 1 THEN <<Dim(r, p, "kbot"), Dim(r, p, "n") - 1>> ELSE <<0 - NoHi, NoHi>>
+      [] r = "Dlaqr23" /\ nm = "nh" -> <<Dim(r, p, "nw"), NoHi>>
+      \* Dtrevc3: mm columns must hold the computed vectors (all n of them unless fewer are selected)
+      [] r = "Dtrevc3" /\ nm = "mm" -> <<0, NoHi>>
+      [] OTHER -> <<0, NoHi>>
 
 (********************************* operands **********************************)
 Mats(r) ==
@@ -165,6 +197,10 @@ Mats(r) ==
                \cup {"Dorgbr", "Dpbtrf", "Dlansb", "Dlantb", "Dlangb", "Dlaswp", "Dpbtf2", "Dpbcon"} -> <<"a">>
       [] r \in {"Dormbr", "Dormhr"} -> <<"a", "c">>
       [] r \in TriD -> <<"b">>
+      [] r \in Gsv -> <<"a", "b", "u", "v", "q">>
+      [] r \in Schur -> <<"h", "z">>
+      [] r = "Dtrevc3" -> <<"t", "vl", "vr">>
+      [] r = "Dlaqr23" -> <<"h", "z", "v", "t", "wv">>
       [] OTHER -> <<>>
 \* <<rows, columns>> of a matrix operand (<<0, 0>>: not referenced for these job flags; a band matrix with kd
 \* off-diagonals is stored as n rows of kd+1 elements)
@@ -212,6 +248,27 @@ MatDims(r, p, o) ==
       \* general band matrix: min(m, n+kl) stored rows of kl+ku+1 elements
       [] r = "Dlangb" -> <<Min(Dim(r, p, "m"), Dim(r, p, "n") + Dim(r, p, "kl")), Dim(r, p, "kl") + Dim(r, p, "ku") + 1>>
       [] r = "Dlaswp" -> <<Dim(r, p, "k2") + 1, Dim(r, p, "n")>>
+      \* generalized SVD: "U, V and Q must be m x m, p x p and n x n respectively unless the relevant job parameter is GSVDNone"
+      [] r \in Gsv ->
+           (CASE o = "a" -> <<Dim(r, p, "m"), Dim(r, p, "n")>>
+              [] o = "b" -> <<Dim(r, p, "p"), Dim(r, p, "n")>>
+              [] o = "u" -> IF p.f[1] = 0 THEN <<Dim(r, p, "m"), Dim(r, p, "m")>> ELSE <<0, 0>>
+              [] o = "v" -> IF p.f[2] = 0 THEN <<Dim(r, p, "p"), Dim(r, p, "p")>> ELSE <<0, 0>>
+              [] o = "q" -> IF p.f[3] = 0 THEN <<Dim(r, p, "n"), Dim(r, p, "n")>> ELSE <<0, 0>>)
+      \* Schur routines: Z is referenced unless compz = SchurNone / wantz = false
+      [] r \in Schur -> IF o = "h" \/ p.f[2] # 0 THEN <<Dim(r, p, "n"), Dim(r, p, "n")>> ELSE <<0, 0>>
+      \* Dlaqr23: "v and ldv represent an nw x nw work matrix, t and ldt an nw x nh work matrix, wv and ldwv an nv x nw work matrix"
+      [] r = "Dlaqr23" ->
+           (CASE o = "h" -> <<Dim(r, p, "n"), Dim(r, p, "n")>>
+              [] o = "z" -> IF p.f[2] = 1 THEN <<Dim(r, p, "n"), Dim(r, p, "n")>> ELSE <<0, 0>>
+              [] o = "v" -> <<Dim(r, p, "nw"), Dim(r, p, "nw")>>
+              [] o = "t" -> <<Dim(r, p, "nw"), Dim(r, p, "nh")>>
+              [] o = "wv" -> <<Dim(r, p, "nv"), Dim(r, p, "nw")>>)
+      \* Dtrevc3: "VL and VR are n x mm matrices", VL not referenced for EVRight, VR not for EVLeft
+      [] r = "Dtrevc3" ->
+           (CASE o = "t" -> <<Dim(r, p, "n"), Dim(r, p, "n")>>
+              [] o = "vl" -> IF p.f[1] \in {1, 2} THEN <<Dim(r, p, "n"), Dim(r, p, "mm")>> ELSE <<0, 0>>
+              [] o = "vr" -> IF p.f[1] \in {0, 2} THEN <<Dim(r, p, "n"), Dim(r, p, "mm")>> ELSE <<0, 0>>)
 MatDesc(r, p, o) == LET rc == MatDims(r, p, o) IN Desc("ge", rc[1], rc[2], p.ld[o], 0, 0, 0, 0)
 
 \* float vectors (other than a workspace governed by lwork) and their documented minimum length
@@ -234,6 +291,10 @@ Vecs(r) ==
       [] r = "Dsytd2" -> <<"d", "e", "tau">>
       [] r \in {"Drscl", "Dlassq", "Dlarfg"} -> <<"x">>
       [] r = "Dlasrt" -> <<"d">>
+      [] r = "Dggsvp3" -> <<"tau">>
+      [] r = "Dggsvd3" -> <<"alpha", "beta">>
+      [] r \in Schur -> <<"wr", "wi">>
+      [] r = "Dlaqr23" -> <<"sr", "si">>
       [] OTHER -> <<>>
 \* documented minimum lengths of the routines in Drv (job flags and min/max of the dimensions matter)
 VecMinDrv(r, p, o) ==
@@ -265,6 +326,10 @@ VecMinDrv(r, p, o) ==
       [] r = "Dgecon" -> 4 * n
       [] r = "Dgtsv" -> IF o = "d" THEN n ELSE n - 1
       [] r = "Dptsv" -> IF o = "d" THEN n ELSE n - 1
+      [] r \in Gsv -> n                                      \* tau; "alpha and beta must have length n"
+      [] r = "Dhseqr" -> n                                   \* "wr and wi must have length n"
+      [] r = "Dlaqr04" -> Dim(r, p, "ihi") + 1               \* "wr and wi must have length ihi+1"
+      [] r = "Dlaqr23" -> Dim(r, p, "kbot") + 1              \* "sr and si must have length kbot+1"
 VecMin(r, p, o) ==
     CASE r \in Drv -> VecMinDrv(r, p, o)
       [] o = "tau" -> IF r \in QRf THEN Mn(r, p) ELSE Dim(r, p, "k")
@@ -274,14 +339,17 @@ VecMin(r, p, o) ==
               [] r \in {"Dorm2r", "Dorml2", "Dlarf", "Dormr2"} -> Nw(r, p))
       [] o = "x" -> VecNeed(Nq(r, p), p.inc)
 IVecs(r) == IF r \in LU \cup {"Dlaswp"} THEN <<"ipiv">> ELSE IF r = "Dgeqp3" THEN <<"jpvt">>
-            ELSE IF r \in {"Dtrcon", "Dgecon", "Dpocon", "Dpbcon"} THEN <<"iwork">>
+            ELSE IF r \in {"Dtrcon", "Dgecon", "Dpocon", "Dpbcon"} \cup Gsv THEN <<"iwork">>
             ELSE IF r \in {"Dlapmt", "Dlapmr"} THEN <<"k">> ELSE <<>>
 IVecMin(r, p, o) == IF r \in {"Dgetrf", "Dgetf2"} THEN Mn(r, p)
                     ELSE IF r = "Dlaswp" THEN Dim(r, p, "k2") + 1      \* one entry per row 0 .. k2
                     ELSE IF r = "Dlapmr" THEN Dim(r, p, "m")           \* a permutation of the rows
                     ELSE Dim(r, p, "n")
 \* vectors whose length the documentation fixes exactly
-ExactNames == {"tau", "wr", "wi"}
+ExactNames == {"tau", "wr", "wi", "alpha", "beta", "sr", "si"}
+\* boolean vectors (Dtrevc3: "selected must have length n if howmny == EVSelected, and it is not referenced otherwise")
+BVecs(r) == IF r = "Dtrevc3" THEN <<"selected">> ELSE <<>>
+BVecMin(r, p, o) == IF p.f[2] = 2 THEN Dim(r, p, "n") ELSE 0
 \* vectors whose length the documentation fixes exactly ("must have length k"): a longer slice is
 \* rejected by some routines and accepted by others - both are legal
 HasInc(r) == r \in {"Dlarf", "Dlaswp", "Drscl", "Dlassq", "Dlarfg"}
@@ -292,7 +360,7 @@ IncName(r) == IF r = "Dlarf" THEN "inc=0" ELSE "inc"
 
 HasLwork(r) == r \in {"Dgetri", "Dgeqrf", "Dgelqf", "Dorgqr", "Dorglq", "Dormqr", "Dormlq", "Dgerqf", "Dorgql",
                       "Dgels", "Dgesvd", "Dsyev", "Dsytrd", "Dorgtr", "Dgehrd", "Dorghr", "Dgeev", "Dgeqp3", "Dgebrd",
-                      "Dorgbr", "Dormbr", "Dormhr"}
+                      "Dorgbr", "Dormbr", "Dormhr"} \cup QOnly
 MinLwork(r, p) ==
     CASE r = "Dgetri" -> Max(1, Dim(r, p, "n"))
       [] r \in {"Dgeqrf", "Dorgqr", "Dorgql"} -> Max(1, Dim(r, p, "n"))
@@ -310,6 +378,12 @@ MinLwork(r, p) ==
       [] r = "Dgeqp3" -> IF Mn(r, p) <= 0 THEN 1 ELSE 3 * Dim(r, p, "n") + 1
       [] r = "Dgebrd" -> Max(1, Max(Dim(r, p, "m"), Dim(r, p, "n")))
       [] r = "Dorgbr" -> Max(1, Mn(r, p))
+      [] r = "Dggsvp3" -> 1                                  \* "lwork must be -1 or greater than zero"
+      [] r = "Dggsvd3" -> Dim(r, p, "n") + 1                 \* "lwork must be -1 or greater than n"
+      [] r = "Dhseqr" -> Max(1, Dim(r, p, "n"))
+      [] r = "Dlaqr04" -> IF Dim(r, p, "n") <= 11 THEN 1 ELSE Dim(r, p, "n")
+      [] r = "Dtrevc3" -> Max(1, 3 * Dim(r, p, "n"))
+      [] r = "Dlaqr23" -> Max(1, 2 * Dim(r, p, "nw"))
 
 \* documented quick returns: nothing is addressed
 ZeroL(r, p) ==
@@ -327,6 +401,9 @@ ZeroL(r, p) ==
       [] r = "Dlarfg" -> Dim(r, p, "n") \in {0, 1}          \* nothing to annihilate
       [] r \in SqN \cup Hess \cup TriN \cup (VecN \ {"Dlarfg"}) \cup {"Dpbtrf", "Dtbtrs", "Dptsv", "Dlansb", "Dlantb", "Dlaswp", "Dpbtf2", "Dpbcon"} -> Dim(r, p, "n") = 0
       [] r \in {"Dpbtrs", "Dgtsv", "Dpttrs"} -> Dim(r, p, "n") = 0 \/ Dim(r, p, "nrhs") = 0
+      [] r \in Gsv -> FALSE                                  \* no documented quick return
+      [] r \in Schur \cup {"Dtrevc3"} -> Dim(r, p, "n") = 0
+      [] r = "Dlaqr23" -> Dim(r, p, "n") = 0 \/ Dim(r, p, "nw") = 0
 IsQuery(r, p) == HasLwork(r) /\ p.lwork = -1
 
 (********************************** clauses **********************************)
